@@ -45,6 +45,8 @@ type probe struct {
 	curOp  evm.OpCode // the operation being executed (the last one traced)
 	curSet bool
 
+	depth2Err string // error of the last frame at depth 2 that failed (layer F: how the child failed)
+
 	// jump-validity reference (see jumpref.go)
 	pendJump      map[int]*jumpPend // depth -> JUMP/JUMPI that has been traced and whose verdict is not known yet
 	zeroJumpers   map[string]bool   // distinct codes that ran with a zero CodeHash and executed a jump
@@ -183,6 +185,9 @@ func residueClasses(cl []string) []string {
 // ---- tracer ----
 
 func (p *probe) frameFailed(depth int, err error) {
+	if depth == 2 {
+		p.depth2Err = err.Error()
+	}
 	p.failed[depth] = err.Error()
 }
 
